@@ -98,7 +98,22 @@ fn gen_decl(c: &mut Choices<'_>, idx: usize, comments: bool) -> (String, Option<
     }
     s.push_str(*c.pick(VIS));
     s.push_str("use ");
-    if c.chance(1, 12) {
+    if c.chance(1, 15) {
+        // a brace list directly at the global root
+        let n = 2 + c.below(2);
+        let entries: Vec<String> = (0..n)
+            .map(|k| {
+                // (external crate names only: `::self`, `::crate`, `::super` are not paths)
+                let root = *c.pick(&["std", "core", "alpha", "beta", "gamma", "serde"]);
+                match c.below(3) {
+                    0 => root.trim_start_matches("::").to_string(),
+                    1 => format!("{} as g{idx}_{k}", root.trim_start_matches("::")),
+                    _ => format!("{}::{}", root.trim_start_matches("::"), *c.pick(&["a", "b", "Read"])),
+                }
+            })
+            .collect();
+        s.push_str(&format!("::{{{}}}", entries.join(", ")));
+    } else if c.chance(1, 12) {
         // an alias on a keyword segment
         s.push_str(*c.pick(&["crate as root_mod", "super as up", "super::super as gp", "crate as _", "super::{self as parent, HashMap}"]));
     } else {
@@ -180,7 +195,7 @@ impl Property for C10 {
         }
     }
     fn rule(&self) -> &'static str {
-        "generated sequences of 1..8 use declarations (nested lists to depth 4, globs, self/super/crate, aliases, underscore imports, raw identifiers, leading ::, visibilities, attributes, comments, exact and near duplicates, blank-line groups, other items in between) x imports_granularity x group_imports x reorder_imports x edition x style edition x width x imports_layout/indent; oracle: an independent token-level reader expands every run of consecutive use items into leaves (attributes, visibility, path, alias; a::{self} = a) and the leaf sets of corresponding runs of input and output must be equal, and every comment payload must survive exactly once; non-trivial = the output's use items differ structurally (merged, split, flattened) from the input's; distinct by case content"
+        "generated sequences of 1..8 use declarations (nested lists to depth 4, globs, self/super/crate, aliases, underscore imports, raw identifiers, leading :: (also a brace list directly at ::), visibilities, attributes, comments, exact and near duplicates, blank-line groups, other items in between) x imports_granularity x group_imports x reorder_imports x edition x style edition x width x imports_layout/indent; oracle: an independent token-level reader expands every run of consecutive use items into leaves (attributes, visibility, path, alias; a::{self} = a) and the leaf sets of corresponding runs of input and output must be equal, and every comment payload must survive exactly once; non-trivial = the output's use items differ structurally (merged, split, flattened) from the input's; distinct by case content"
     }
     fn generate(&self, c: &mut Choices<'_>, _g: &GenCtx) -> Value {
         let n = 1 + c.below(8);
